@@ -279,3 +279,49 @@ def gen_slow(rng, grid_step=None):
         'jthr': jthr,
         'grid_step': grid_step or rng.choice([0.1, 0.25, 0.2, 0.5]),
     }
+
+
+def gen_repeating(rng, grid_step=None):
+    """A record that keeps returning to exactly the same levels: every storm
+    lifts the water table from B to A in m steps, every dry spell lowers it from
+    A to B in k steps (all values dyadic, so they repeat bit for bit), while the
+    rain totals differ from storm to storm.  Intervals with identical levels but
+    different abscissae are what a cache keyed on levels alone would confuse."""
+    step = rng.choice([1800, 3600, 900])
+    sh = step / 3600.0
+    sthr, jthr = 4.0, 8.0
+    A = rng.choice([-64.0, -20.0, 16.0, 100.0])
+    m = rng.choice([1, 2, 4])
+    rise_per_step = rng.choice([8.0, 16.0, 4.0]) * max(1.0, sh)  # > jthr * sh
+    while rise_per_step <= jthr * sh * 1.01:
+        rise_per_step *= 2
+    B = A - m * rise_per_step
+    k = rng.choice([8, 16, 32])
+    fall = (A - B) / k
+    rain, z = [], []
+    level = A
+    for ev in range(rng.randint(4, 9)):
+        for i in range(k):                      # dry spell A -> B
+            rain.append(0.0)
+            z.append(A - i * fall)
+        for i in range(m):                      # storm B -> A, rain differs between events
+            rain.append(sthr * rng.choice([1.5, 2.0, 3.0, 5.0, 1.25]))
+            z.append(B + i * rise_per_step)
+        rain.append(sthr / 4)                   # light tail, level already at A
+        z.append(A)
+    for i in range(k // 2):
+        rain.append(0.0)
+        z.append(A - i * fall)
+    n = len(rain)
+    return {
+        'kind': 'repeating',
+        'step': step,
+        't0': '2021-03-01 00:00:00',
+        'tz': 'UTC',
+        'rain': rain,
+        'et': 0.125,
+        'z': [[i * step, z[i]] for i in range(n)],
+        'sthr': sthr,
+        'jthr': jthr,
+        'grid_step': grid_step or rng.choice([1.0, 0.5, 2.0, 0.25]),
+    }
